@@ -4,7 +4,7 @@ A tree of znodes (bytes content, children in creation order, per-parent sequence
 subset of KazooClient / treadmill.zkutils.ZkClient that `cellsync`, `zkutils.put` / `ensure_deleted` /
 `ensure_exists` and `masterapi.update_allocations` / `create_event` use: create (makepath, sequence,
 ephemeral and acl accepted), set, set_acls, get, exists, delete, get_children, ensure_path,
-make_default_acl, make_servers_acl; NoNodeError / NodeExistsError / NotEmptyError are kazoo's own.
+make_default_acl, make_servers_acl, make_host_acl; NoNodeError / NodeExistsError / NotEmptyError are kazoo's own.
 Every applied state change is logged as (kind, path), kind in create / set / delete.
 """
 import kazoo.exceptions
@@ -69,6 +69,9 @@ class FakeZk:
 
     def make_servers_acl(self):
         return 'servers'
+
+    def make_host_acl(self, host, perm):
+        return 'host:%s:%s' % (host, perm)
 
     def get_children(self, path, watch=None, include_data=False):
         n = self.node(path)
